@@ -5,7 +5,7 @@ from . import common as c
 from . import C01_lib as lib
 
 SUPPORT = ["Dec/Ty.v", "Dec/Val.v", "Dec/Parse.v", "Dec/Text.v", "Dec/Num.v", "Dec/Common.v", "Dec/FieldMap.v", "Dec/Range.v",
-           "Dec/StdBind.v", "Dec/SonicBind.v", "Dec/FieldMapProofs.v", "Dec/FieldLookup.v", "Dec/DecProofs.v", "Dec/OptProofs.v"]
+           "Dec/StdBind.v", "Dec/SonicBind.v", "Dec/FieldMapProofs.v", "Dec/FieldLookup.v", "Dec/DecProofs.v", "Dec/ParseMono.v", "Dec/Witness.v", "Dec/OptProofs.v"]
 
 CLAIM = {
     "gens": [],
